@@ -19,7 +19,6 @@ import (
 	"testing"
 	"time"
 
-	"github.com/v-byte-cpu/sx/command/log"
 	"github.com/v-byte-cpu/sx/pkg/scan"
 	"verif.local/v/oracle"
 	"verif.local/v/vlab"
@@ -37,10 +36,12 @@ type c08case struct {
 	StallAtLine int    `json:"output_stalls_at_line"`
 	StallMs     int    `json:"output_stall_ms"`
 	ExitDelayMs int    `json:"exit_delay_ms"`
+	DupPermille int    `json:"repeated_target_line_permille"`
 	Seed        uint64 `json:"seed"`
 }
 
 type genericRig struct {
+	mult    map[uint32]int // how many times each valid target is listed (a repeated line is probed and reported again)
 	clock   *rigClock
 	scanner *recScanner
 	out     *recOut
@@ -56,6 +57,9 @@ type genericRig struct {
 
 // rigTargetFile writes a JSONL ip/port file with n entries; entries selected by
 // badPermille are unparsable addresses (-> one ErrIP each, processing continues).
+// rigDupPermille is set by the C08 rig around its call (tests of one process run sequentially).
+var rigDupPermille int
+
 func rigTargetFile(dir string, n int, seed uint64, badPermille int) (path string, ids []uint32, nBad int) {
 	var buf bytes.Buffer
 	for i := 1; i <= n; i++ {
@@ -67,6 +71,11 @@ func rigTargetFile(dir string, n int, seed uint64, badPermille int) (path string
 		}
 		fmt.Fprintf(&buf, "{\"ip\":\"%s\",\"port\":%d}\n", oracle.IPString(oracle.U32ToIP(id)), 1+i%65535)
 		ids = append(ids, id)
+		if rigDupPermille > 0 && int(rigHash(seed, uint32(i), 22)%1000) < rigDupPermille {
+			// the same pair listed again: the specification denotes it twice
+			fmt.Fprintf(&buf, "{\"ip\":\"%s\",\"port\":%d}\n", oracle.IPString(oracle.U32ToIP(id)), 1+i%65535)
+			ids = append(ids, id)
+		}
 	}
 	path = filepath.Join(dir, fmt.Sprintf("targets-%x.jsonl", seed))
 	if err := os.WriteFile(path, buf.Bytes(), 0o644); err != nil {
@@ -77,15 +86,22 @@ func rigTargetFile(dir string, n int, seed uint64, badPermille int) (path string
 
 func newGenericRig(ctx context.Context, dir string, c c08case) *genericRig {
 	g := &genericRig{clock: &rigClock{}}
+	rigDupPermille = c.DupPermille
 	g.file, g.ids, g.nBad = rigTargetFile(dir, c.N, c.Seed, c.BadPermille)
+	rigDupPermille = 0
+	g.mult = map[uint32]int{}
+	for _, id := range g.ids {
+		g.mult[id]++
+	}
 	g.scanner = newRecScanner(c.Seed, c.PosPermille, c.ErrPermille, time.Duration(c.LatencyUs)*time.Microsecond, g.clock)
 	g.out = &recOut{clock: g.clock, delay: time.Duration(c.SlowOutUs) * time.Microsecond, stallAt: c.StallAtLine, stallFor: time.Duration(c.StallMs) * time.Millisecond}
-	real, err := log.NewLogger(g.out, "rig", log.JSON())
+	g.opts = &genericScanCmdOpts{ipFile: g.file, workers: c.Workers, json: true}
+	// the logger the socks/docker/elastic commands build for themselves
+	real, err := g.opts.getLogger("rig", g.out)
 	if err != nil {
 		panic(err)
 	}
 	g.logger = &recLogger{inner: real, clock: g.clock}
-	g.opts = &genericScanCmdOpts{ipFile: g.file, workers: c.Workers, json: true}
 	if c.Rate > 0 {
 		g.opts.rateCount, g.opts.rateWindow = c.Rate, time.Second
 	}
@@ -152,16 +168,16 @@ func c08run(run *vlab.Run, dir string, c c08case) {
 	sc.mu.Lock()
 	defer sc.mu.Unlock()
 	// ---- each valid target probed exactly once
-	for _, id := range g.ids {
-		if n := sc.calls[id]; n != 1 {
+	for id, m := range g.mult {
+		if n := sc.calls[id]; n != m {
 			key := "target-probed-twice"
-			if n == 0 {
+			if n < m {
 				key = "target-not-probed"
 			}
-			run.Violation(key, fmt.Sprintf("target %s probed %d times (exactly once expected; %d targets, %d workers): %+v", oracle.IPString(oracle.U32ToIP(id)), n, len(g.ids), c.Workers, c), c)
+			run.Violation(key, fmt.Sprintf("target %s probed %d times (listed %d times; %d target lines, %d workers): %+v", oracle.IPString(oracle.U32ToIP(id)), n, m, len(g.ids), c.Workers, c), c)
 		}
 	}
-	if len(sc.calls) > len(g.ids) {
+	if len(sc.calls) > len(g.mult) {
 		run.Violation("probe-extra", fmt.Sprintf("%d distinct destinations probed but only %d targets specified: %+v", len(sc.calls), len(g.ids), c), c)
 	}
 	// ---- completion after all probes finished
@@ -185,11 +201,14 @@ func c08run(run *vlab.Run, dir string, c c08case) {
 	for id, out := range sc.outcome {
 		if out == outPositive {
 			npos++
-			switch n := lineN[id]; {
-			case n > 1:
-				run.Violation("result-duplicated", fmt.Sprintf("detected service %s printed %d times: %+v", oracle.IPString(oracle.U32ToIP(id)), n, c), c)
-			case n == 0:
-				missing++
+			switch n, m := lineN[id], g.mult[id]; {
+			case n > m:
+				run.Violation("result-duplicated", fmt.Sprintf("detected service %s printed %d times (probed %d times): %+v", oracle.IPString(oracle.U32ToIP(id)), n, m, c), c)
+			case n < m:
+				missing += m - n
+				if n > 0 {
+					run.Count("repeated_target_printed_less_often_than_probed", 1)
+				}
 			}
 		} else if lineN[id] > 0 {
 			run.Violation("result-phantom", fmt.Sprintf("a record was printed for %s whose probe did not detect anything: %+v", oracle.IPString(oracle.U32ToIP(id)), c), c)
@@ -216,12 +235,12 @@ func c08run(run *vlab.Run, dir string, c c08case) {
 		}
 		errN[e]++
 	}
-	for id, e := range sc.errs {
+	for _, e := range sc.allErrs {
 		switch n := errN[e]; {
 		case n == 0:
-			run.Violation("probe-error-lost", fmt.Sprintf("failed probe of %s produced no error record (%d failed probes, %d error records): %+v", oracle.IPString(oracle.U32ToIP(id)), len(sc.errs), len(errs), c), c)
+			run.Violation("probe-error-lost", fmt.Sprintf("a failed probe (%v) produced no error record (%d failed probes, %d error records): %+v", e, len(sc.allErrs), len(errs), c), c)
 		case n > 1:
-			run.Violation("probe-error-duplicated", fmt.Sprintf("failed probe of %s produced %d error records: %+v", oracle.IPString(oracle.U32ToIP(id)), n, c), c)
+			run.Violation("probe-error-duplicated", fmt.Sprintf("a failed probe (%v) produced %d error records: %+v", e, n, c), c)
 		}
 		delete(errN, e)
 	}
@@ -238,7 +257,8 @@ func c08run(run *vlab.Run, dir string, c c08case) {
 	run.Count("probes", int64(len(sc.startSeq)))
 	run.Count("positive_results", int64(npos))
 	run.Count("lines_printed", int64(len(lines)))
-	run.Count("probe_errors", int64(len(sc.errs)))
+	run.Count("probe_errors", int64(len(sc.allErrs)))
+	run.Count("repeated_target_lines", int64(len(g.ids)-len(g.mult)))
 	run.Count("error_records", int64(len(errs)))
 	run.Max("max_parallel_probes", int64(sc.maxInflight))
 	run.Max("max_monitor_stall_us", int64(stall/time.Microsecond))
@@ -281,6 +301,9 @@ func c08cases(run *vlab.Run) []c08case {
 		}
 		if rng.Intn(6) == 0 {
 			c.ExitDelayMs = 300 + rng.Intn(300)
+		}
+		if rng.Intn(4) == 0 {
+			c.DupPermille = []int{50, 300, 1000}[rng.Intn(3)]
 		}
 		if c.SlowOutUs == 0 && c.PosPermille >= 500 && c.N >= 2001 && rng.Intn(2) == 0 {
 			// stdout stalls once for a moment while > 2000 results pile up behind it, then is fast again
